@@ -73,7 +73,7 @@ func init() {
 				}
 				if sl, isSl := dst.(*ssa.Slice); isSl && sl.Low != nil {
 					lt := term(sl.Low)
-					ok = strings.Contains(lt, "binary.PutUvarint(") || strings.Contains(lt, "len(binary.AppendUvarint(")
+					ok = strings.Contains(lt, "binary.PutUvarint(") || strings.Contains(lt, "len(binary.AppendUvarint(") || c19FromEncoder(f, sl.Low)
 					c.check(ok, "pad-prefix", "PadMessage: message offset", p.Pos(s.Pos()), "message copied at the offset returned by binary.PutUvarint", "the message is placed at offset "+lt+", not at the length binary.PutUvarint reported: the reader (binary.Uvarint) would cut at a different offset for some lengths")
 				}
 			}
@@ -91,7 +91,7 @@ func init() {
 				}
 				nMk++
 				lt := termInlDeep(p, mk.Len)
-				okLen := strings.Contains(lt, "binary.PutUvarint(") || strings.Contains(lt, "binary.AppendUvarint(")
+				okLen := strings.Contains(lt, "binary.PutUvarint(") || strings.Contains(lt, "binary.AppendUvarint(") || c19FromEncoder(f, mk.Len)
 				c.check(okLen, "pad-prefix", "PadMessage: buffer size", p.Pos(posOf(in, f)), "the padded length is computed from the prefix length binary.PutUvarint/AppendUvarint reported", "the padded buffer is sized from a prefix length that does not come from the varint encoder ("+clip(lt, 160)+"): writer and sizing can disagree at a 7-bit boundary and the message tail is cut off")
 			})
 			if nMk == 0 {
@@ -108,6 +108,36 @@ func init() {
 					o1, _ := everyDisjunctHas(d, []string{"^!", " > ", "len(padded)"})
 					o2, _ := everyDisjunctHas(d, []string{"^!", "#1 <= 0"})
 					ok = o1 && o2
+				}
+			}
+			if !ok {
+				// the decoding may sit in a same-package helper: then the helper's success returns carry the positivity test of
+				// the prefix size, and UnpadMessage's success return the comparison of the decoded length with the bytes at hand
+				for _, h := range samePkgScope(f, 1) {
+					if h == f || findSite(h, "Uvarint") == nil {
+						continue
+					}
+					okPos := true
+					for _, hr := range returnsOf(h) {
+						if len(hr.Results) == 0 || !isNilConst(hr.Results[len(hr.Results)-1]) {
+							continue
+						}
+						if o, _ := everyDisjunctHas(p.mustHoldAt(hr.Ret), []string{"^!", "#1 <= 0"}, []string{"#1 > 0"}, []string{"0 < ", "#1"}); !o {
+							okPos = false
+						}
+					}
+					okLen := false
+					for _, ret := range returnsOf(f) {
+						if len(ret.Results) < 2 || !isNilConst(ret.Results[1]) {
+							continue
+						}
+						if o, _ := everyDisjunctHas(p.mustHoldAt(ret.Ret), []string{"^!", "len(", " < "}, []string{"^!", " > ", "len("}, []string{"len(", " >= "}, []string{" <= ", "len("}); o {
+							okLen = true
+						}
+					}
+					if okPos && okLen {
+						ok = true
+					}
 				}
 			}
 			c.check(ok, "pad-prefix", "UnpadMessage: bounds", p.Pos(fnPos(f)), "slices at the varint length after checking it is positive and that prefix+len fits", "UnpadMessage no longer validates the varint prefix / length before slicing")
@@ -956,4 +986,51 @@ func calleeNameOf(call *ssa.Call) string {
 		return f.Name()
 	}
 	return "?"
+}
+
+// c19FromEncoder: v is computed from the length the varint encoder reported — directly, or through a field of a local struct
+// that a same-package method (called on that struct in fn) fills from binary.PutUvarint / AppendUvarint.
+func c19FromEncoder(fn *ssa.Function, v ssa.Value) bool {
+	isEnc := func(x ssa.Value) bool {
+		call, ok := x.(*ssa.Call)
+		if !ok || call.Call.StaticCallee() == nil {
+			return false
+		}
+		n := call.Call.StaticCallee().Name()
+		return n == "PutUvarint" || n == "AppendUvarint"
+	}
+	sl := backSlice(v)
+	for x := range sl {
+		if isEnc(x) {
+			return true
+		}
+	}
+	for x := range sl {
+		fa, ok := x.(*ssa.FieldAddr)
+		if !ok {
+			continue
+		}
+		fld := fieldName(fa.X.Type(), fa.Field)
+		for _, s := range sitesOf(fn) {
+			if s.Callee == nil || pkgRelOf(s.Callee) != pkgRelOf(fn) || s.Recv == nil || s.Recv != fa.X {
+				continue
+			}
+			filled := false
+			allInstrsOne(s.Callee, func(in ssa.Instruction) {
+				if st, ok := in.(*ssa.Store); ok {
+					if fa2, ok := st.Addr.(*ssa.FieldAddr); ok && fieldName(fa2.X.Type(), fa2.Field) == fld {
+						for y := range backSlice(st.Val) {
+							if isEnc(y) {
+								filled = true
+							}
+						}
+					}
+				}
+			})
+			if filled {
+				return true
+			}
+		}
+	}
+	return false
 }
